@@ -35,7 +35,8 @@ type respSpec struct {
 	Close      bool        `json:"close,omitempty"`
 	Gzip       bool        `json:"gzip,omitempty"`
 	CloseAfter int         `json:"close_after,omitempty"` // h1: read that many body bytes, then close the connection without answering
-	ReadOnly   int         `json:"read_only,omitempty"`   // h2/h3 handler: read that many body bytes, answer, return
+	ReadOnly   int         `json:"read_only,omitempty"`
+	Early103   bool        `json:"early_103,omitempty"` // h2/h3 handler: a 103 Early Hints block before the final one   // h2/h3 handler: read that many body bytes, answer, return
 	body       []byte      // entity bytes on the wire
 }
 
@@ -267,6 +268,7 @@ type exSpec struct {
 	Expect   bool        `json:"expect,omitempty"`
 	ReadBuf  int         `json:"read_buf"`
 	Retry    bool        `json:"retry,omitempty"`
+	Clone    bool        `json:"clone,omitempty"`      // the exchange runs on client.Clone(); the original's dump is switched off first
 	Warm     bool        `json:"warm_up,omitempty"`    // a GET with its own request-level dumper goes first on the same client / connection
 	WantErr  bool        `json:"want_error,omitempty"` // the scripted exchange ends in an error (reset upload)
 	Abort    string      `json:"abort,omitempty"`      // "h1-close" | "h3-partial": the upload breaks off at an amount the client decides
@@ -435,6 +437,10 @@ func genExchange(rng *hk.Rand) exSpec {
 		e.Warm = true
 		shape += "+warm"
 	}
+	if rng.Chance(15) {
+		e.Clone = true
+		shape += "+clone"
+	}
 	if e.ReadBuf != 0 {
 		shape += fmt.Sprintf("+rb%d", e.ReadBuf)
 	}
@@ -532,19 +538,6 @@ type runOut struct {
 	Hang    bool
 	Sink    map[[2]int][]byte
 	Elapsed time.Duration
-}
-
-// applyDump installs the dump configuration on a client / request.
-func applyDump(c *req.Client, rq *req.Request, cfg *dumpCfg, s *sink) {
-	if cfg == nil {
-		return
-	}
-	if cfg.Client != nil {
-		c.SetCommonDumpOptions(cfg.Client.build(0, s)).EnableDumpAll()
-	}
-	if cfg.Request != nil {
-		rq.SetDumpOptions(cfg.Request.build(1, s)).EnableDump()
-	}
 }
 
 // finishDump waits until everything queued on the client-level dumper has been written and
@@ -649,6 +642,16 @@ func runClient(c *req.Client, url string, ex exSpec, id string, cfg *dumpCfg, wc
 		c.SetCommonRetryCount(1).SetCommonRetryFixedInterval(time.Millisecond).
 			SetCommonRetryCondition(func(resp *req.Response, err error) bool { return err == nil && resp.StatusCode == 500 })
 	}
+	if cfg != nil && cfg.Client != nil {
+		c.SetCommonDumpOptions(cfg.Client.build(0, s)).EnableDumpAll()
+	}
+	if ex.Clone {
+		// a clone of a dumping client dumps on its own (own Dumper, started by Clone) to the same
+		// writers; switching the original's dump off afterwards must not silence it
+		cl := c.Clone()
+		c.DisableDumpAll()
+		c = cl
+	}
 	rq := c.R().SetHeader("X-Case", id)
 	rq.SetContext(httptrace.WithClientTrace(context.Background(), &httptrace.ClientTrace{
 		WroteRequest: func(httptrace.WroteRequestInfo) { wc.wrote() },
@@ -665,7 +668,9 @@ func runClient(c *req.Client, url string, ex exSpec, id string, cfg *dumpCfg, wc
 	case "reader":
 		rq.SetBody(io.MultiReader(bytes.NewReader(ex.body))) // no WriterTo, unknown length
 	}
-	applyDump(c, rq, cfg, s)
+	if cfg != nil && cfg.Request != nil {
+		rq.SetDumpOptions(cfg.Request.build(1, s)).EnableDump()
+	}
 	if ex.Warm {
 		// same client, same connection afterwards; its own request-level dumper (level 2) must see
 		// this exchange only, the main request's dumper must see nothing of it
